@@ -53,7 +53,7 @@ structure Link (E : Model.Eng) (S : Spec.SEng) (t : List Nat) : Prop where
   asc : ascii t
   small : (t.length : Int) < Model.maxInt64
   find : ∀ i, i ≤ t.length → (E.findAt (t.drop i) 0).map (shiftCaps i) = Spec.searchFrom S t i
-  wf : ∀ i r, i ≤ t.length → E.findAt (t.drop i) 0 = some r → ∃ a b rest, r = some (a, b) :: rest ∧ a + i ≤ t.length
+  wf : ∀ i r, i ≤ t.length → E.findAt (t.drop i) 0 = some r → ∃ a b rest, r = some (a, b) :: rest ∧ a + i ≤ t.length ∧ b + i ≤ t.length
 
 theorem capEnd_shift (i a b : Nat) (rest : Caps) : capEnd (shiftCaps i (some (a, b) :: rest)) = b + i := by
   simp [capEnd, shiftCaps]
@@ -64,26 +64,82 @@ theorem capStart_shift (i a b : Nat) (rest : Caps) : capStart (shiftCaps i (some
 def startIndex (len : Nat) (g : Bool) (z : Int) : Option Nat :=
   if !g then some 0 else if z < 0 ∨ z > len then none else some z.toNat
 
-theorem model_at (E : Model.Eng) (rx : RX) (t : List Nat) (z : Int) :
+theorem byteOffLoop_ascii : ∀ (bs : List Nat) (f off count units : Nat), ascii bs → bs.length < f → count ≤ units →
+    Model.byteOffLoop f bs off count units =
+      (if units - count ≤ bs.length then (off + (units - count), true) else (off + bs.length, false)) := by
+  intro bs; induction bs with
+  | nil =>
+    intro f off count units _ hf hc
+    cases f with
+    | zero => simp at hf
+    | succ f =>
+      simp only [Model.byteOffLoop, Str.decodeRune, List.length_nil]
+      by_cases h : units - count ≤ 0
+      · have : count ≥ units := by omega
+        simp [this]
+      · have : ¬ count ≥ units := by omega
+        simp [h, this]
+  | cons b bs ih =>
+    intro f off count units ha hf hc
+    cases f with
+    | zero => simp at hf
+    | succ f =>
+      have hb : b < 128 := ha b (by simp)
+      simp only [Model.byteOffLoop, Str.decodeRune, if_pos hb, List.drop_one, List.tail_cons]
+      by_cases h : count ≥ units
+      · have : units - count = 0 := by omega
+        simp [h, this]
+      · rw [if_neg h]
+        have hr : ¬ b > 0xFFFF := by omega
+        rw [if_neg hr]
+        rw [ih f (off + 1) (count + 1) units (fun x hx => ha x (by simp [hx])) (by simp at hf; omega) (by omega)]
+        simp only [List.length_cons]
+        by_cases h2 : units - (count + 1) ≤ bs.length
+        · have : units - count ≤ bs.length + 1 := by omega
+          simp only [h2, this, if_true]
+          congr 1; omega
+        · have : ¬ units - count ≤ bs.length + 1 := by omega
+          simp only [h2, this, if_false]
+          congr 1; omega
+
+theorem byteOffset_ascii (t : List Nat) (ha : ascii t) (z : Int) :
+    Model.utf16ByteOffset t z = if z < 0 then (0, false) else if z.toNat ≤ t.length then (z.toNat, true) else (t.length, false) := by
+  unfold Model.utf16ByteOffset
+  by_cases h : z < 0
+  · simp [h]
+  · simp only [h, if_false]
+    rw [byteOffLoop_ascii t _ 0 0 z.toNat ha (by omega) (by omega)]
+    simp
+
+theorem model_at (E : Model.Eng) (rx : RX) (t : List Nat) (ha : ascii t) (z : Int) :
     Model.execAt E rx t z =
       match startIndex t.length rx.global z with
       | none => ({ rx with lastIndex := .int 0 }, none)
       | some i =>
         match E.findAt (t.drop i) 0 with
         | none => ({ rx with lastIndex := .int 0 }, none)
-        | some r => (if rx.global then { rx with lastIndex := .int ((i : Int) + capEnd r) } else rx, some (shiftCaps i r)) := by
+        | some r => (if rx.global then { rx with lastIndex := .int (Model.utf16Length (t.take (capEnd (shiftCaps i r)))) } else rx,
+                     some (shiftCaps i r)) := by
   obtain ⟨g, li⟩ := rx
+  unfold Model.execAt
+  simp only [byteOffset_ascii t ha]
   cases g with
-  | false => simp [Model.execAt, startIndex]; split <;> simp_all
+  | false =>
+    simp [startIndex]
+    cases E.findAt t 0 <;> rfl
   | true =>
-    simp only [Model.execAt, startIndex, if_true, Bool.not_true, Bool.false_eq_true, if_false]
-    by_cases h : z < 0 ∨ z > (t.length : Int)
-    · have h' : 0 > z ∨ z > (t.length : Int) := by omega
-      simp [h, h']
-    · have h' : ¬ (0 > z ∨ z > (t.length : Int)) := by omega
-      simp only [h, h', if_false]
-      split <;> simp_all
-      omega
+    simp only [startIndex, if_true, Bool.not_true, Bool.false_eq_true, if_false]
+    by_cases hz : z < 0 ∨ z > (t.length : Int)
+    · rw [if_pos hz]
+      by_cases h : z < 0
+      · simp [h]
+      · have h2 : ¬ z.toNat ≤ t.length := by omega
+        simp [h, h2]
+    · rw [if_neg hz]
+      have h : ¬ z < 0 := by omega
+      have h2 : z.toNat ≤ t.length := by omega
+      simp only [h, h2, if_false, if_true]
+      cases hfa : E.findAt (t.drop z.toNat) 0 <;> simp [hfa]
 
 /-- ToInteger(lastIndex) and `number().int64` pick the same start index on strings shorter than 2^63 -/
 theorem start_agree (len : Nat) (hs : (len : Int) < Model.maxInt64) (g : Bool) (li : LI) :
@@ -156,7 +212,7 @@ theorem spec_core (S : Spec.SEng) (rx : RX) (t : List Nat) :
 theorem exec_core (E : Model.Eng) (S : Spec.SEng) (t : List Nat) (L : Link E S t) (rx : RX) :
     Model.execRegExp E rx t = Spec.execCore S rx t := by
   unfold Model.execRegExp
-  rw [model_at, spec_core, start_agree t.length L.small]
+  rw [model_at _ _ _ L.asc, spec_core, start_agree t.length L.small]
   show (match specStart t.length rx.global rx.lastIndex with | none => _ | some i => _) = _
   cases hi : specStart t.length rx.global rx.lastIndex with
   | none => rfl
@@ -167,11 +223,13 @@ theorem exec_core (E : Model.Eng) (S : Spec.SEng) (t : List Nat) (L : Link E S t
     cases hr : E.findAt (t.drop i) 0 with
     | none => rw [hr] at hf; simp at hf; rw [← hf]
     | some r =>
-      obtain ⟨a, b, rest, rfl, _⟩ := L.wf i r hle hr
+      obtain ⟨a, b, rest, rfl, _, hb⟩ := L.wf i r hle hr
       rw [hr] at hf; simp at hf; rw [← hf]
       simp only [capEnd_shift]
-      have : ((i : Int) + (capEnd (some (a, b) :: rest) : Nat)) = ((b + i : Nat) : Int) := by
-        simp [capEnd]; omega
+      have : Model.utf16Length (t.take (b + i)) = b + i := by
+        unfold Model.utf16Length
+        rw [unitsOfBytes_ascii _ (ascii_take t L.asc _)]
+        simp; omega
       rw [this]
 
 theorem link_swf (E : Model.Eng) (S : Spec.SEng) (t : List Nat) (L : Link E S t) (i : Nat) (c : Caps)
@@ -181,7 +239,7 @@ theorem link_swf (E : Model.Eng) (S : Spec.SEng) (t : List Nat) (L : Link E S t)
   cases hr : E.findAt (t.drop i) 0 with
   | none => rw [hr] at hf; simp at hf
   | some r =>
-    obtain ⟨a, b, rest, rfl, hab⟩ := L.wf i r hi hr
+    obtain ⟨a, b, rest, rfl, hab, _⟩ := L.wf i r hi hr
     rw [hr] at hf; simp at hf; rw [← hf, capStart_shift]; exact hab
 
 theorem execCore_some (S : Spec.SEng) (rx rx' : RX) (t : List Nat) (c : Caps)
@@ -278,7 +336,14 @@ theorem search_eq (E : Model.Eng) (S : Spec.SEng) (t : List Nat) (L : Link E S t
   simp only [List.drop_zero] at hf
   cases hr : E.findAt t 0 with
   | none => rw [hr] at hf; simp at hf; rw [← hf]
-  | some r => rw [hr] at hf; simp [shiftCaps_zero] at hf; rw [← hf]
+  | some r =>
+    obtain ⟨a, b, rest, rfl, hab, _⟩ := L.wf 0 r (Nat.zero_le _) (by simpa using hr)
+    rw [hr] at hf; simp [shiftCaps_zero] at hf; rw [← hf]
+    have : Model.utf16Length (t.take (capStart (some (a, b) :: rest))) = capStart (some (a, b) :: rest) := by
+      unfold Model.utf16Length
+      rw [unitsOfBytes_ascii _ (ascii_take t L.asc _)]
+      simp [capStart]; omega
+    simp only [this]
 
 /-- String.prototype.match with a non-global regexp is exec (§15.5.4.10 step 7) -/
 theorem match_nonglobal_eq (E : Model.Eng) (S : Spec.SEng) (t : List Nat) (L : Link E S t) (rx : RX) (hg : rx.global = false) :
